@@ -6,8 +6,8 @@ probdiffeq run on it unchanged; the event log is validated by TLC against the te
 
 Scalars the solvers consume are scripted, exactly representable functions of the operand id:
   residual_whitened_rms(O)  = 1 + id(O) / 1024        (unique per observed term: doubles as provenance tag)
-  std(X)[k]                 = 2^-(id(X) mod 4) (k+1)/2 (per Taylor coefficient k; constant over the d components)
-  mean(X)[k]                = (id(X) mod 5) + 1 + k    (idem)
+  std(X)[k][c]              = 2^-(id(X) mod 4) (k+1)/2 (1+c)            (Taylor coefficient k, component c in {0, 1})
+  mean(X)[k][c]             = ((id(X) mod 5) + 1 + k) (1 if c == 0 else 7)   (so that rms over components is 5 x base)
 """
 
 from __future__ import annotations
@@ -125,19 +125,19 @@ class TNormal(ssm_impl_api.AbstractTreeNormal):
         return self.mean_flat
 
     # scripted scalars
-    def _coeff(self, f):
+    def _coeff(self, f, comp):
         i = self.mean_flat[..., 0]
-        return [f(i, k)[..., None] * jnp.ones((D,)) for k in range(self.n)]
+        return [f(i, k)[..., None] * jnp.asarray(comp) for k in range(self.n)]
 
     @property
     def mean(self):
         TR.op("read_mean", 0, [self.mean_flat])
-        return self._coeff(lambda i, k: jnp.mod(i, 5.0) + 1.0 + k)
+        return self._coeff(lambda i, k: jnp.mod(i, 5.0) + 1.0 + k, (1.0, 7.0))
 
     @property
     def std(self):
         TR.op("read_std", 0, [self.mean_flat])
-        return self._coeff(lambda i, k: 2.0 ** (-jnp.mod(i, 4.0)) * (k + 1.0) / 2.0)
+        return self._coeff(lambda i, k: 2.0 ** (-jnp.mod(i, 4.0)) * (k + 1.0) / 2.0, (1.0, 2.0))
 
     def sample_tree(self, key):
         return [self.sample_flat(key)]
